@@ -1,6 +1,6 @@
 (* Exec/Args.v — reading the flattened argument list of a case back into model values. *)
 From Coq Require Import ZArith QArith Qcanon List Bool String.
-From CG Require Import Scalar Model.Vector Model.Point Model.Matrix Exec.ExecQ.
+From CG Require Import Scalar Model.Vector Model.Point Model.Matrix Model.Angle Model.Quaternion Exec.ExecQ.
 Import ListNotations.
 Set Implicit Arguments.
 
@@ -20,6 +20,9 @@ Section Rd.
     fun l => match l with a :: b :: r => Some (mkP2 a b, r) | _ => None end.
   Definition rd_p3 : rd (P3 S) :=
     fun l => match l with a :: b :: c :: r => Some (mkP3 a b c, r) | _ => None end.
+  (* quaternion: s, x, y, z (the argument order of Quaternion::new) *)
+  Definition rd_quat : rd (Quat S) :=
+    fun l => match l with s :: a :: b :: c :: r => Some (quat_new s a b c, r) | _ => None end.
   Definition rd_m2 : rd (M2 S) :=
     fun l => match l with a :: b :: c :: d :: r => Some (m2_new a b c d, r) | _ => None end.
   Definition rd_m3 : rd (M3 S) :=
